@@ -203,6 +203,8 @@ def check(ctx):
     R.start_closure(ctx, prog, "C05.O2s")
     R.c05_api(ctx, prog)
     check_allocators(ctx, prog)
+    from . import c01
+    c01.wait_rules(ctx, prog)      # "successfully waited for" means reaped: a status is returned only with the child reaped (C01.R3)
     from . import c16
     c16.sink_string_rules(ctx, prog, "C05.O3k")
     c16.run_ex_rules(ctx, prog, "C05.O3r")
